@@ -133,17 +133,17 @@ package saml
 //@ contract findChildren
 //@ requires el: parentEl != nil
 //@ ensures[C01] match: err == nil ==> forall(0, len(result), func(k int) bool {
-//@    return result[k] != nil && result[k].Tag == childTag && NSOf(result[k]) == childNS })
+//@    return result[k] != nil && result[k].Tag == childTag && NSOf(result[k]) == childNS && ChildOf(result[k], parentEl) })
 //@ loop 1 vars rv []*etree.Element
-//@ invariant[C01] acc: forall(0, len(rv), func(k int) bool { return rv[k] != nil && rv[k].Tag == childTag && NSOf(rv[k]) == childNS })
+//@ invariant[C01] acc: forall(0, len(rv), func(k int) bool { return rv[k] != nil && rv[k].Tag == childTag && NSOf(rv[k]) == childNS && ChildOf(rv[k], parentEl) })
 
 //@ contract findOneChild
 //@ requires el: parentEl != nil
-//@ ensures[C01,C09] one: err == nil ==> result != nil && result.Tag == childTag && NSOf(result) == childNS
+//@ ensures[C01,C09] one: err == nil ==> result != nil && result.Tag == childTag && NSOf(result) == childNS && ChildOf(result, parentEl)
 
 //@ contract findChild
 //@ requires el: parentEl != nil
-//@ ensures[C01] one: err == nil && result != nil ==> result.Tag == childTag && NSOf(result) == childNS
+//@ ensures[C01] one: err == nil && result != nil ==> result.Tag == childTag && NSOf(result) == childNS && ChildOf(result, parentEl)
 
 //@ contract parseCert
 //@ ensures[C09] nonnil: err == nil ==> result != nil
@@ -227,6 +227,11 @@ package saml
 //@    responseOK(sp, response, possibleRequestIDs, now, responseHasSignature, currentURL)
 //@ assert@call[C03] findChildren #1 uses responseHasSignature bool, responseSignatureErr error signed_means_destination:
 //@    signatureRequirement == signatureRequired ==> responseHasSignature == (responseSignatureErr != errSignatureElementNotPresent)
+//@ -- the elements handed to the assertion parsers are children of this Response element, with the assertion namespace
+//@ assert@call[C01] parseEncryptedAssertion #1 (spa *ServiceProvider, el *etree.Element) encrypted_assertion_is_child:
+//@    el != nil && ChildOf(el, responseEl) && el.Tag == "EncryptedAssertion" && NSOf(el) == "urn:oasis:names:tc:SAML:2.0:assertion"
+//@ assert@call[C01] parseAssertion #1 (spa *ServiceProvider, el *etree.Element) assertion_is_child:
+//@    el != nil && ChildOf(el, responseEl) && el.Tag == "Assertion" && NSOf(el) == "urn:oasis:names:tc:SAML:2.0:assertion"
 //@ loop 1 vars assertions []Assertion, req=signatureRequirement signatureRequirement, errs []error
 //@ invariant[C09] enc_errs: forall(0, len(errs), func(k int) bool { return errs[k] != nil })
 //@ invariant[C02,C03,C04] enc_valid: forall(0, len(assertions), func(k int) bool { return assertionValid(sp, &assertions[k], possibleRequestIDs, now) })
@@ -270,6 +275,9 @@ package saml
 //@ assert@call[C01] parseResponse #1 (spa *ServiceProvider, el *etree.Element, ids []string, nowArg time.Time, req signatureRequirement) inner_requirement:
 //@    (req == signatureRequired || (req == signatureNotRequired && (sp.SignatureVerifier != nil || SigOK(sp, artifactResponseEl)))) &&
 //@    nowArg == now && sameStrings(ids, possibleRequestIDs)
+//@ -- ... and that inner Response is a Response child, in the protocol namespace, of the very element whose signature was checked
+//@ assert@call[C01] parseResponse #1 (spa *ServiceProvider, el *etree.Element) inner_response_is_child:
+//@    el != nil && ChildOf(el, artifactResponseEl) && el.Tag == "Response" && NSOf(el) == "urn:oasis:names:tc:SAML:2.0:protocol"
 
 //@ contract (*ServiceProvider).ParseXMLResponse
 //@ requires[cfg] md: sp.IDPMetadata != nil
